@@ -11,12 +11,19 @@ anything else raises TranslateError — fail closed.  The only "interpretation" 
   * open() is specialised to mode == "w" (tests of the form `"<c>" in mode` are decided);
   * the literal `objects_list` of write_to_file is unrolled, `objects is self.data_inputs` and
     `if terminate:` are decided per entry of that literal list;
-  * `if self._temp_path is not None` in __exit__ is decided by whether open("w") assigned it.
+  * in __exit__ the names that hold the temporary's path are followed (self._temp_path, a local copy):
+    `<name> is not None` is decided when the name certainly still holds the path, and becomes the
+    model's condition IfTemp once the name has been cleared under a condition (`temp_path = None`
+    after os.replace -> step Forget);
+  * local variable names are irrelevant: every local is recognised by the statement that binds it
+    (renaming `fh`, `lines`, `status`, `temp_path` ... gives the same step list); parameter names of
+    the public methods are part of the interface and are compared literally.
 
 IR as Python data:  {"temp": [("L", ".")|("B",)|("P",)...], "open": [...], "body": [...], "exit": [...],
-"post": [...]} with step codes as in Model/Write.v's wire format (GE GD OD OT CM L<sec><osteps> CH BL CL
-RP<c> RM<c><t> HW).
+"final": [...], "post": [...]} with step codes as in Model/Write.v's wire format (GE GD OD OT CM
+L<sec><osteps> CH BL CL RP<c> RM<c><t> FG<c> HW; conditions A O E P).
 """
+import copy
 import ast
 import hashlib
 import os
@@ -49,6 +56,34 @@ def S(text):
     m = ast.parse(text)
     assert len(m.body) == 1
     return D(m.body[0])
+
+
+class Names:
+    """actual local name -> canonical role name; bound by the statement that introduces the local"""
+
+    def __init__(self):
+        self.env = {}
+
+    def bind(self, target, role):
+        if not isinstance(target, ast.Name):
+            fail(target, f"expected a plain local name for `{role}`")
+        cur = self.env.get(target.id)
+        if cur is not None and cur != role:
+            fail(target, f"local `{target.id}` is used both as `{cur}` and as `{role}`")
+        for k, v in self.env.items():
+            if v == role and k != target.id:
+                fail(target, f"two locals (`{k}`, `{target.id}`) play the role `{role}`")
+        self.env[target.id] = role
+
+    def D(self, node):
+        """dump with every bound local replaced by its role name"""
+        n = copy.deepcopy(node)
+        for x in ast.walk(n):
+            if isinstance(x, ast.Name) and x.id in self.env:
+                x.id = self.env[x.id]
+            if isinstance(x, (ast.Name, ast.Attribute, ast.Tuple, ast.List, ast.Subscript, ast.Starred)):
+                x.ctx = ast.Load()
+        return D(n)
 
 
 def fail(node, what):
@@ -255,73 +290,172 @@ def translate_input_file(tree):
 
     # --- __exit__
     ex = find_method(cls, "__exit__")
-    if arg_names(ex) != ["self", "exc_type", "exc_val", "exc_tb"]:
+    xa = arg_names(ex)
+    if len(xa) != 4 or xa[0] != "self":
         fail(ex, "__exit__ parameters changed")
-    exit_steps = []
-    xs = {}
+    nm = Names()
+    for a, role in zip(xa[1:], ("exc_type", "exc_val", "exc_tb")):   # positional by protocol
+        nm.env[a] = role
+    out = {"exit": [], "final": []}
+    # names through which __exit__ can reach the temporary: dump -> "T" holds the path,
+    # "N" certainly None, "M" cleared under a condition (the model's [pend] flag follows this name)
+    tn = {}
     if temp["parts"] is not None:
-        xs[E("self._temp_path")] = "T"
+        tn[E("self._temp_path")] = "T"
+    seen = {"try": False, "closed": False, "returned": False}
 
-    def walk_exit(body, cond):
-        for st in body:
-            if D(st) == S("status = self._fh.__exit__(exc_type, exc_val, exc_tb)"):
-                if cond != "A":
-                    fail(st, "the file is closed conditionally")
-                exit_steps.append("CL")
-                xs["status"] = "FILE_EXIT"
-                continue
-            if D(st) == S("self._fh = None") or D(st) == S("self._temp_path = None"):
-                continue
-            if isinstance(st, ast.If) and D(st.test) == E("self._temp_path is not None") and not st.orelse:
+    def holders(state):
+        return [k for k, v in tn.items() if v == state]
+
+    def test_conds(test):
+        """conjuncts of an if test -> set of model conditions it adds ('O', 'E', 'P'), None = always true"""
+        parts = test.values if isinstance(test, ast.BoolOp) and isinstance(test.op, ast.And) else [test]
+        conds = set()
+        for t in parts:
+            d = nm.D(t)
+            if d == E("exc_type is None"):
+                conds.add("O")
+            elif d == E("exc_type is not None"):
+                conds.add("E")
+            elif isinstance(t, ast.Compare) and len(t.ops) == 1 and isinstance(t.ops[0], ast.IsNot) \
+                    and D(t.comparators[0]) == E("None") and nm.D(t.left) in tn:
+                st = tn[nm.D(t.left)]
+                if st == "T":
+                    continue          # certainly true here
+                if st == "M":
+                    conds.add("P")
+                else:
+                    fail(t, "test of a name that has been cleared")
+            elif isinstance(t, ast.Compare) and len(t.ops) == 1 and isinstance(t.ops[0], ast.IsNot) \
+                    and D(t.comparators[0]) == E("None") and nm.D(t.left) == E("self._temp_path"):
                 if not has_temp_field:
-                    fail(st, "self._temp_path used but not initialised in __init__")
-                if temp["parts"] is not None:
-                    walk_exit(st.body, cond)
+                    fail(t, "self._temp_path used but not initialised in __init__")
+                return "NEVER"        # open("w") never assigned a temporary: the block is dead code
+            else:
+                fail(t, "__exit__: unrecognised condition")
+        return conds
+
+    def combine(cond, conds, node):
+        if not conds:
+            return cond
+        if len(conds) > 1:
+            fail(node, "__exit__: conjunction of conditions the model cannot express")
+        c = next(iter(conds))
+        if cond == "A" or cond == c:
+            return c
+        fail(node, "__exit__: nested conditions the model cannot express")
+
+    def negate(c, node):
+        if c == "O":
+            return "E"
+        if c == "E":
+            return "O"
+        fail(node, "__exit__: else branch of a condition the model cannot negate")
+
+    def temp_arg(node, cond):
+        """is this expression the temporary's path (usable under [cond])?"""
+        st = tn.get(nm.D(node))
+        if st == "T":
+            return True
+        if st == "M":
+            if cond == "P":
+                return True
+            fail(node, "the temporary's path may already have been cleared here")
+        return False
+
+    def walk_exit(body, cond, part, top):
+        steps = out[part]
+        for idx, st in enumerate(body):
+            if is_docstring(st):
+                continue
+            if seen["returned"]:
+                fail(st, "__exit__: statement after return")
+            # status = self._fh.__exit__(exc_type, exc_val, exc_tb)
+            if isinstance(st, ast.Assign) and len(st.targets) == 1 and isinstance(st.targets[0], ast.Name) \
+                    and nm.D(st.value) == E("self._fh.__exit__(exc_type, exc_val, exc_tb)"):
+                if cond != "A" or part != "exit" or seen["closed"]:
+                    fail(st, "the file is closed conditionally, twice or in the finally part")
+                nm.bind(st.targets[0], "status")
+                seen["closed"] = True
+                steps.append("CL")
+                continue
+            if D(st) == S("self._fh = None"):
+                continue
+            # <name> = None
+            if isinstance(st, ast.Assign) and len(st.targets) == 1 and D(st.value) == E("None") \
+                    and nm.D(st.targets[0]) in tn:
+                k = nm.D(st.targets[0])
+                if tn[k] == "T" and len(holders("T")) > 1:
+                    tn[k] = "N"       # another name still holds the path: pure bookkeeping
+                    if cond != "A":
+                        fail(st, "a copy of the temporary's path is cleared conditionally")
+                    continue
+                if tn[k] == "T":
+                    if holders("M"):
+                        fail(st, "two names may hold the temporary's path")
+                    steps.append("FG" + cond)
+                    tn[k] = "N" if cond == "A" else "M"
+                    continue
+                fail(st, "the temporary's path is cleared twice")
+            # <local> = <name holding the path>
+            if isinstance(st, ast.Assign) and len(st.targets) == 1 and isinstance(st.targets[0], ast.Name) \
+                    and nm.D(st.value) in tn:
+                if tn[nm.D(st.value)] != "T" or cond != "A":
+                    fail(st, "copy of the temporary's path taken after it may have been cleared")
+                nm.bind(st.targets[0], "temp_path")
+                tn[nm.D(st.targets[0])] = "T"
                 continue
             if isinstance(st, ast.Assign) and len(st.targets) == 1 and isinstance(st.targets[0], ast.Name) \
-                    and D(st.value) == E("self._temp_path"):
-                if temp["parts"] is None:
-                    fail(st, "self._temp_path read but never assigned by open('w')")
-                xs[D(_load(st.targets[0]))] = "T"
+                    and nm.D(st.value) == E("self._temp_path"):
+                fail(st, "self._temp_path read but never assigned by open('w')")
+            if isinstance(st, ast.If):
+                conds = test_conds(st.test)
+                if conds == "NEVER":
+                    continue
+                c = combine(cond, conds, st)
+                walk_exit(st.body, c, part, False)
+                if st.orelse:
+                    if not conds:
+                        fail(st, "__exit__: else branch of a condition that is always true")
+                    if cond != "A":
+                        fail(st, "__exit__: nested else")
+                    walk_exit(st.orelse, negate(c, st), part, False)
                 continue
-            if isinstance(st, ast.If) and D(st.test) == E("exc_type is None"):
-                if cond != "A":
-                    fail(st, "nested exc_type test")
-                walk_exit(st.body, "O")
-                walk_exit(st.orelse, "E")
-                continue
-            if isinstance(st, ast.If) and D(st.test) == E("exc_type is not None"):
-                if cond != "A":
-                    fail(st, "nested exc_type test")
-                walk_exit(st.body, "E")
-                walk_exit(st.orelse, "O")
+            if isinstance(st, ast.Try):
+                if not top or part != "exit" or seen["try"] or st.handlers or st.orelse or not st.finalbody:
+                    fail(st, "__exit__: only one top-level try/finally without handlers is understood")
+                if steps:
+                    fail(st, "__exit__: steps before the try block would escape its finally part")
+                seen["try"] = True
+                walk_exit(st.body, cond, "exit", False)
+                walk_exit(st.finalbody, cond, "final", False)
                 continue
             if isinstance(st, ast.Expr) and isinstance(st.value, ast.Call) and not st.value.keywords:
                 c = st.value
                 if D(c.func) == E("os.replace") and len(c.args) == 2:
-                    if xs.get(D(c.args[0])) == "T" and D(c.args[1]) in dest:
-                        exit_steps.append("RP" + cond)
+                    if temp_arg(c.args[0], cond) and D(c.args[1]) in dest:
+                        steps.append("RP" + cond)
                         continue
                     fail(st, "os.replace with unexpected arguments")
                 if D(c.func) in (E("os.remove"), E("os.unlink")) and len(c.args) == 1:
-                    if xs.get(D(c.args[0])) == "T":
-                        exit_steps.append("RM" + cond + "T")
+                    if temp_arg(c.args[0], cond):
+                        steps.append("RM" + cond + "T")
                         continue
                     if D(c.args[0]) in dest:
-                        exit_steps.append("RM" + cond + "D")
+                        steps.append("RM" + cond + "D")
                         continue
                     fail(st, "os.remove with unexpected argument")
             if isinstance(st, ast.Return):
-                if st.value is not None and isinstance(st.value, ast.Name) and xs.get(st.value.id) == "FILE_EXIT" \
-                        and cond == "A" and body is ex.body:
-                    return True
+                if st.value is not None and nm.D(st.value) == E("status") and seen["closed"] and top:
+                    seen["returned"] = True
+                    continue
                 fail(st, "__exit__ does not return the status of the file's own __exit__ at its end")
             fail(st, "__exit__: unrecognised statement")
-        return False
 
-    if not walk_exit(ex.body, "A"):
+    walk_exit(ex.body, "A", "exit", True)
+    if not seen["returned"]:
         fail(ex, "__exit__ does not end in `return status`")
-    return {"temp": temp["parts"] or [], "open": steps, "exit": exit_steps}
+    return {"temp": temp["parts"] or [], "open": steps, "exit": out["exit"], "final": out["final"]}
 
 
 def _load(node):
@@ -343,21 +477,27 @@ def translate_write_to_file(tree):
         E("[self.message]"): "M", E("[self.title]"): "T", E("self.cells"): "C",
         E("self.surfaces"): "S", E("self.data_inputs"): "D",
     }
+    nm = Names()
     body = [s for s in fn.body if not is_docstring(s)]
-    if len(body) < 2 or D(body[0]) != S("new_file = MCNP_InputFile(new_problem, overwrite=overwrite)"):
-        fail(body[0] if body else fn, "write_to_file does not start with MCNP_InputFile(new_problem, overwrite=overwrite)")
+    first = body[0] if body else fn
+    if len(body) < 2 or not (isinstance(first, ast.Assign) and len(first.targets) == 1
+                             and D(first.value) == E("MCNP_InputFile(new_problem, overwrite=overwrite)")):
+        fail(first, "write_to_file does not start with <local> = MCNP_InputFile(new_problem, overwrite=overwrite)")
+    nm.bind(first.targets[0], "new_file")
     w = body[1]
     if not isinstance(w, ast.With) or not w.items:
         fail(w, "expected the with statement")
     it0 = w.items[0]
-    if D(it0.context_expr) != E('new_file.open("w")') or it0.optional_vars is None or D(_load(it0.optional_vars)) != E("fh"):
-        fail(w, 'first context manager is not new_file.open("w") as fh')
+    if nm.D(it0.context_expr) != E('new_file.open("w")') or it0.optional_vars is None:
+        fail(w, 'first context manager is not <new_file>.open("w") as <local>')
+    nm.bind(it0.optional_vars, "fh")
     for it in w.items[1:]:
         if not (isinstance(it.context_expr, ast.Call) and D(it.context_expr.func) == E("warnings.catch_warnings")):
             fail(w, "unknown additional context manager")
-    wc_name = None
+    has_wc = False
     if len(w.items) > 1 and w.items[1].optional_vars is not None:
-        wc_name = D(_load(w.items[1].optional_vars))
+        nm.bind(w.items[1].optional_vars, "warning_catch")
+        has_wc = True
 
     WRITE_LINE = S('fh.write(line + "\\n")')
     WRITE_BLANK = S('fh.write("\\n")')
@@ -386,20 +526,33 @@ def translate_write_to_file(tree):
                 return False
         return True
 
+    def line_loop(st, iter_dump):
+        """for <line> in <iter>: fh.write(<line> + "\n")"""
+        if not (isinstance(st, ast.For) and isinstance(st.target, ast.Name) and not st.orelse
+                and nm.D(st.iter) == iter_dump and len(st.body) == 1):
+            return False
+        probe = Names()
+        probe.env = dict(nm.env)
+        probe.env[st.target.id] = "line"
+        if probe.D(st.body[0]) != WRITE_LINE:
+            return False
+        nm.bind(st.target, "line")
+        return True
+
     def is_child_loop(st):
-        return isinstance(st, ast.For) and D(_load(st.target)) == E("line") and D(st.iter) == CHILD_ITER \
-            and not st.orelse and [D(x) for x in st.body] == [WRITE_LINE]
+        return line_loop(st, CHILD_ITER)
 
     def obj_loop(st):
         """for obj in objects: ...  -> ostep letters"""
         out = ""
         for s in st.body:
-            if D(s) == S("lines = obj.format_for_mcnp_input(self.mcnp_version)"):
+            if isinstance(s, ast.Assign) and len(s.targets) == 1 and isinstance(s.targets[0], ast.Name) \
+                    and nm.D(s.value) == E("obj.format_for_mcnp_input(self.mcnp_version)"):
+                nm.bind(s.targets[0], "lines")
                 out += "F"
-            elif isinstance(s, ast.If) and wc_name and D(s.test) == wc_name and not s.orelse and no_io(s):
+            elif isinstance(s, ast.If) and has_wc and nm.D(s.test) == E("warning_catch") and not s.orelse and no_io(s):
                 out += "N"
-            elif isinstance(s, ast.For) and D(_load(s.target)) == E("line") and D(s.iter) == E("lines") \
-                    and not s.orelse and [D(x) for x in s.body] == [WRITE_LINE]:
+            elif line_loop(s, E("lines")):
                 out += "W"
             else:
                 fail(s, "object loop: unrecognised statement")
@@ -410,54 +563,61 @@ def translate_write_to_file(tree):
 
     def section_body(stmts, sec, term):
         for s in stmts:
-            if isinstance(s, ast.For) and D(_load(s.target)) == E("obj") and D(s.iter) == E("objects") and not s.orelse:
+            if isinstance(s, ast.For) and isinstance(s.target, ast.Name) and nm.D(s.iter) == E("objects") and not s.orelse:
+                nm.bind(s.target, "obj")
                 steps.append("L" + sec + obj_loop(s))
-            elif isinstance(s, ast.If) and D(s.test) == E("objects is self.data_inputs") and not s.orelse:
+            elif isinstance(s, ast.If) and nm.D(s.test) == E("objects is self.data_inputs") and not s.orelse:
                 if sec == "D":
                     for c in s.body:
                         if is_child_loop(c):
                             steps.append("CH")
                         else:
                             fail(c, "data-block tail: unrecognised statement")
-            elif isinstance(s, ast.If) and D(s.test) == E("terminate") and not s.orelse \
-                    and [D(x) for x in s.body] == [WRITE_BLANK]:
+                else:
+                    for c in s.body:       # same statements, not executed for this section
+                        if not is_child_loop(c):
+                            fail(c, "data-block tail: unrecognised statement")
+            elif isinstance(s, ast.If) and nm.D(s.test) == E("terminate") and not s.orelse \
+                    and [nm.D(x) for x in s.body] == [WRITE_BLANK]:
                 if term:
                     steps.append("BL")
             else:
                 fail(s, "section loop: unrecognised statement")
 
     for st in w.body:
-        if D(st) == S("objects_list = []"):
-            olist = []
-        elif isinstance(st, ast.Assign) and len(st.targets) == 1 and D(_load(st.targets[0])) == E("objects_list"):
+        if isinstance(st, ast.Assign) and len(st.targets) == 1 and isinstance(st.targets[0], ast.Name) \
+                and isinstance(st.value, ast.List) and (olist is None or nm.D(st.targets[0]) == E("objects_list")):
+            nm.bind(st.targets[0], "objects_list")
             olist = entries_of(st.value)
         elif isinstance(st, ast.If) and D(st.test) == E("self.message") and not st.orelse and len(st.body) == 1 \
                 and isinstance(st.body[0], ast.Expr) and isinstance(st.body[0].value, ast.Call) \
-                and D(st.body[0].value.func) == E("objects_list.append") and len(st.body[0].value.args) == 1 \
+                and nm.D(st.body[0].value.func) == E("objects_list.append") and len(st.body[0].value.args) == 1 \
                 and is_tuple_entry(st.body[0].value.args[0]) and secs[D(st.body[0].value.args[0].elts[0])] == "M":
             if olist is None:
                 fail(st, "objects_list used before assignment")
             # the message block is optional: the model's message section is simply empty then
             olist.append(("M", st.body[0].value.args[0].elts[1].value))
-        elif isinstance(st, ast.AugAssign) and isinstance(st.op, ast.Add) and D(_load(st.target)) == E("objects_list"):
+        elif isinstance(st, ast.AugAssign) and isinstance(st.op, ast.Add) and nm.D(st.target) == E("objects_list"):
             if olist is None:
                 fail(st, "objects_list used before assignment")
             olist += entries_of(st.value)
-        elif isinstance(st, ast.For) and D(_load(st.target)) == E("(objects, terminate)") and D(st.iter) == E("objects_list") \
-                and not st.orelse:
+        elif isinstance(st, ast.For) and isinstance(st.target, ast.Tuple) and len(st.target.elts) == 2 \
+                and nm.D(st.iter) == E("objects_list") and not st.orelse:
             if olist is None:
                 fail(st, "objects_list used before assignment")
+            nm.bind(st.target.elts[0], "objects")
+            nm.bind(st.target.elts[1], "terminate")
             for sec, term in olist:
                 section_body(st.body, sec, term)
         elif is_child_loop(st):
             steps.append("CH")
-        elif D(st) == WRITE_BLANK:
+        elif nm.D(st) == WRITE_BLANK:
             steps.append("BL")
         else:
             fail(st, "with body: unrecognised statement")
     post = []
     for st in body[2:]:
-        if wc_name and D(st) == S("self._handle_warnings(warning_catch)"):
+        if has_wc and nm.D(st) == S("self._handle_warnings(warning_catch)"):
             post.append("HW")
         else:
             fail(st, "after the with block: unrecognised statement")
@@ -496,12 +656,12 @@ def wire(ir):
     def lst(xs):
         return ",".join(xs) or "-"
     return "/".join([lst([wire_part(p) for p in ir["temp"]]), lst(ir["open"]), lst(ir["body"]),
-                     lst(ir["exit"]), lst(ir["post"])])
+                     lst(ir["exit"]), lst(ir["final"]), lst(ir["post"])])
 
 
 def coq_step(code):
     t = {"D": "Dest", "T": "Temp"}
-    c = {"A": "Always", "O": "IfOk", "E": "IfErr"}
+    c = {"A": "Always", "O": "IfOk", "E": "IfErr", "P": "IfTemp"}
     s = {"M": "SMessage", "T": "STitle", "C": "SCells", "S": "SSurfaces", "D": "SData"}
     o = {"F": "Format", "N": "Warn", "W": "WriteLines"}
     simple = {"GE": "GuardExists", "GD": "GuardIsDir", "CM": "CopyMode", "CH": "Children", "BL": "Blank",
@@ -514,6 +674,8 @@ def coq_step(code):
         return f"Replace {c[code[2]]}"
     if code[:2] == "RM":
         return f"Remove {c[code[2]]} {t[code[3]]}"
+    if code[:2] == "FG":
+        return f"Forget {c[code[2]]}"
     if code[0] == "L":
         return f"Loop {s[code[1]]} [" + "; ".join(o[x] for x in code[2:]) + "]"
     raise TranslateError("unknown step code " + code)
@@ -540,6 +702,7 @@ def coq_text(ir):
         "  w_open := " + lst([coq_step(s) for s in ir["open"]]) + ";\n"
         "  w_body := " + lst([coq_step(s) for s in ir["body"]]) + ";\n"
         "  w_exit := " + lst([coq_step(s) for s in ir["exit"]]) + ";\n"
+        "  w_final := " + lst([coq_step(s) for s in ir["final"]]) + ";\n"
         "  w_post := " + lst([coq_step(s) for s in ir["post"]]) + " |}.\n\n"
         "(* the same list in the wire format the harness sends to the extracted model *)\n"
         "Definition write_steps_wire : string := " + vlib.coq_string(ir["wire"]) + ".\n"
